@@ -1,0 +1,21 @@
+//go:build verif
+
+package route
+
+import "net/http"
+
+// Read-only exports for the verification harness (property C13).
+
+// VerifC13Candidates returns, in the order Table.Lookup visits them, what the
+// unexported Table.lookup yields for every matching host of req followed by
+// the "no host" fallback (nil where no route of that host matches the path).
+// It performs none of Lookup's side effects (no BuildRedirectURL, req unchanged).
+func VerifC13Candidates(t Table, req *http.Request, pick picker, match matcher, globCache *GlobCache) []*Target {
+	hosts := t.matchingHosts(req, globCache)
+	hosts = append(hosts, "")
+	out := make([]*Target, 0, len(hosts))
+	for _, h := range hosts {
+		out = append(out, t.lookup(h, req.URL.Path, "", pick, match))
+	}
+	return out
+}
